@@ -109,6 +109,12 @@ func c01Pod(id, quota string, req map[string]int64, np, bound bool, term ...bool
 	if bound {
 		p.Spec.NodeName = "n1"
 		p.Status.Phase = corev1.PodRunning
+		if strings.HasSuffix(id, "1") || strings.HasSuffix(id, "4") {
+			// some pods are being deleted gracefully while they run (deletionTimestamp ahead, a finalizer): they hold their
+			// resources like any other running pod until the object goes away
+			ts := metav1.NewTime(time.Date(2100, 1, 1, 0, 0, 0, 0, time.UTC))
+			p.DeletionTimestamp, p.Finalizers = &ts, []string{"verif/keep"}
+		}
 	}
 	if len(term) > 0 && term[0] { // a finished pod: still an object with a node name, counted until it is deleted
 		p.Spec.NodeName = "n1"
